@@ -305,8 +305,7 @@ theorem step_inv (s s' : Sys) (l : Label) (h : Inv s) (ha : Admissible s l) (hs 
   | init b =>
     simp only [step] at hs
     split at hs; · cases hs
-    split at hs; · cases hs
-    rename_i _ hc
+    rename_i hc
     cases hs
     exact inv_initPut s b h ha.1 ha.2 (by omega)
   | remove =>
@@ -399,7 +398,6 @@ theorem step_no_overflow (s : Sys) (l : Label) (h : Inv s) (ha : Admissible s l)
   | init b =>
     simp only [step]
     have := ha.2
-    split; · simp
     split
     · omega
     · simp
@@ -508,5 +506,46 @@ theorem wake_delivers (s : Sys) (w : Nat) (sg : Bool) (h : Inv s) (hw : (w, sg) 
     · rfl
     · simp [takeWorker, hb1]
     · simp [hb1, heldAdd]
+
+/-- the history variables after the `Reset` loop: the same list of moved blocks is appended to "dequeued by workers"
+    and to "enqueued for the reader"; nothing else in the histories changes -/
+theorem resetLoop_hist (n : Nat) (s : Sys) :
+    ∃ moved, (resetLoop n s).wDeq = s.wDeq ++ moved ∧ (resetLoop n s).rEnq = s.rEnq ++ moved ∧
+      (resetLoop n s).rDeq = s.rDeq ∧ (resetLoop n s).wEnq = s.wEnq ∧ (resetLoop n s).size = s.size := by
+  induction n generalizing s with
+  | zero => exact ⟨[], by simp [resetLoop]⟩
+  | succ n ih =>
+    unfold resetLoop
+    split
+    · obtain ⟨m, h1, h2, h3, h4, h5⟩ := ih _
+      exact ⟨(s.wq.pop s.size).1.toList ++ m, by rw [h1]; simp, by rw [h2]; simp, h3, h4, h5⟩
+    · exact ⟨[], by simp, by simp, rfl, rfl, rfl⟩
+
+/-- **`esl_workqueue_Reset` moves every queued block to the reader's list, keeping the order**: afterwards the worker
+    queue is empty and the reader queue is its old contents followed by the old worker-queue contents -/
+theorem reset_spec (s s' : Sys) (h : Inv s) (ha : Admissible s .reset) (hs : step s .reset = .ok s') :
+    s'.wBlocks = [] ∧ s'.rBlocks = s.rBlocks ++ s.wBlocks ∧ s'.pending = 0 := by
+  have hi' := step_inv s s' .reset h ha hs
+  simp only [step] at hs
+  split at hs
+  · cases hs
+  rename_i hr
+  cases hs
+  obtain ⟨hi, hc, _, _⟩ := inv_resetLoop s.wq.cnt s h (by simpa using hr) ha (Nat.le_refl _)
+  obtain ⟨moved, h1, h2, h3, h4, h5⟩ := resetLoop_hist s.wq.cnt s
+  have hw : (resetLoop s.wq.cnt s).wBlocks = [] := by
+    apply List.eq_nil_of_length_eq_zero
+    have := Ring.length_blocks _ _ hi.wsome
+    simp only [Sys.wBlocks]; omega
+  have hmoved : moved = s.wBlocks := by
+    have e1 := hi.fifoW
+    rw [h4, h1, hw, List.append_nil, h.fifoW] at e1
+    exact (List.append_cancel_left e1).symm
+  have hrb : (resetLoop s.wq.cnt s).rBlocks = s.rBlocks ++ s.wBlocks := by
+    have e2 := hi.fifoR
+    rw [h2, h3, h.fifoR, List.append_assoc] at e2
+    rw [← hmoved]
+    exact (List.append_cancel_left e2).symm
+  exact ⟨hw, hrb, rfl⟩
 
 end EaselModel.WorkQueue
